@@ -100,7 +100,7 @@ func stamp(s string) string { // drop what legitimately depends on the clock
 func script(f *fixtures, g, r int) []string {
 	var out []string
 	add := func(format string, a ...interface{}) { out = append(out, fmt.Sprintf(format, a...)) }
-	switch (g + r) % 8 {
+	switch (g + r) % 9 {
 	case 0: // own account object decoded from the shared token text: validate (writes Trace.Sampling), mutate, encode
 		ac, err := jwt.DecodeAccountClaims(f.acctTok)
 		must(err)
@@ -204,6 +204,38 @@ func script(f *fixtures, g, r int) []string {
 		vr2 := jwt.CreateValidationResults()
 		b.Validate(vr2)
 		add("import acct back imports=%d issues=%d", len(b.Imports), len(vr2.Issues))
+	case 7: // an operator whose version, URLs and account info nobody has parsed before in this process: parsers and
+		// anything memoised around them (version strings, URLs) run for the first time concurrently
+		opk, _ := f.okp.PublicKey()
+		o := jwt.NewOperatorClaims(opk)
+		o.AssertServerVersion = fmt.Sprintf("%d.%d.%d", 1+g%9, r%97, (g*7+r)%13)
+		o.AccountServerURL = fmt.Sprintf("https://acct%d-%d.example.com/jwt/v1", g, r)
+		o.OperatorServiceURLs.Add(fmt.Sprintf("nats://h%d-%d.example.com:4222", g, r), fmt.Sprintf("tls://t%d.example.com:%d", g, 4000+r%1000))
+		o.SystemAccount = f.sharedAcct.Subject
+		vr := jwt.CreateValidationResults()
+		o.Validate(vr)
+		add("op version=%s blocking=%v issues=%d", o.AssertServerVersion, vr.IsBlocking(true), len(vr.Issues))
+		tok, err := o.Encode(f.okp)
+		must(err)
+		b, err := jwt.DecodeOperatorClaims(tok)
+		must(err)
+		vr2 := jwt.CreateValidationResults()
+		b.Validate(vr2)
+		add("op back version=%s urls=%d issues=%d", b.AssertServerVersion, len(b.OperatorServiceURLs), len(vr2.Issues))
+		bad := jwt.NewOperatorClaims(opk)
+		bad.AssertServerVersion = fmt.Sprintf("%d.x%d", g, r)
+		bad.AccountServerURL = fmt.Sprintf("://bad-%d-%d", g, r)
+		vr3 := jwt.CreateValidationResults()
+		bad.Validate(vr3)
+		add("bad op blocking=%v", vr3.IsBlocking(true))
+		ac := jwt.NewAccountClaims(f.sharedAcct.Subject)
+		ac.Info.Description = fmt.Sprintf("d%d-%d", g, r)
+		ac.Info.InfoURL = fmt.Sprintf("https://info%d-%d.example.com/x", g, r)
+		ac.Mappings = jwt.Mapping{}
+		ac.AddMapping(jwt.Subject(fmt.Sprintf("m%d.%d", g, r)), jwt.WeightedMapping{Subject: jwt.Subject(fmt.Sprintf("t%d.%d", g, r)), Weight: 50})
+		vr4 := jwt.CreateValidationResults()
+		ac.Validate(vr4)
+		add("info acct blocking=%v issues=%d", vr4.IsBlocking(true), len(vr4.Issues))
 	default: // activation + operator
 		a, err := jwt.DecodeActivationClaims(f.actTok)
 		must(err)
